@@ -30,7 +30,7 @@ Print Assumptions C13_query_exact_any_initial.
 Theorem C13_state_is_unmet_since_reset : forall tq0 ts0 h,
   initialb tq0 = true -> initialb ts0 = true ->
   fst (run repaired (mkSys tq0 ts0) h) =
-  mkSys (denote (since Req [] h) tq0) (denote (since Res [] h) ts0).
+  mkSys (denote (since Req [] h) (current Req tq0 h)) (denote (since Res [] h) (current Res ts0 h)).
 Proof. exact state_since. Qed.
 Print Assumptions C13_state_is_unmet_since_reset.
 
@@ -41,18 +41,38 @@ Theorem C13_nested_groups_flattened : forall k t,
 Proof. exact verify_flat. Qed.
 Print Assumptions C13_nested_groups_flattened.
 
-(* A reset returns every verifier in the tree to its initial state. *)
+(* A reset returns every verifier in the tree to its initial state: the state
+   is then exactly the CURRENTLY configured structures ([current]: those of
+   the last reconfiguration in the history, else the ones it started with), all
+   of whose verifiers are initial. *)
 Theorem C13_reset_all : forall tq0 ts0 h,
   initialb tq0 = true -> initialb ts0 = true ->
-  fst (step repaired (fst (run repaired (mkSys tq0 ts0) h)) Reset) = mkSys tq0 ts0.
+  fst (step repaired (fst (run repaired (mkSys tq0 ts0) h)) Reset) =
+  mkSys (current Req tq0 h) (current Res ts0 h).
 Proof. exact reset_all. Qed.
 Print Assumptions C13_reset_all.
 
 Theorem C13_reset_kind : forall tq0 ts0 h k,
   initialb tq0 = true -> initialb ts0 = true ->
-  get k (fst (step repaired (fst (run repaired (mkSys tq0 ts0) h)) (ResetK k))) = get k (mkSys tq0 ts0).
+  get k (fst (step repaired (fst (run repaired (mkSys tq0 ts0) h)) (ResetK k))) =
+  get k (mkSys (current Req tq0 h) (current Res ts0 h)).
 Proof. exact reset_kind. Qed.
 Print Assumptions C13_reset_kind.
+
+Theorem C13_configured_structures_are_initial : forall k h t0,
+  initialb t0 = true -> initialb (current k t0 h) = true.
+Proof. exact current_initial. Qed.
+Print Assumptions C13_configured_structures_are_initial.
+
+(* A reconfiguration (POST to martianhttp.Modifier) installs exactly the new
+   configuration's structures on BOTH sides, all verifiers initial; a side
+   the new configuration does not cover is the noop, never the previous one.
+   (C13_query_exact quantifies over histories containing reconfigurations:
+   after one, answers are those of the new tree and of the messages since.) *)
+Theorem C13_reconfiguration_replaces_both_sides : forall vr s c,
+  fst (step vr s (Configure c)) = mkSys (root Req c) (root Res c).
+Proof. exact configure_replaces_both. Qed.
+Print Assumptions C13_reconfiguration_replaces_both_sides.
 
 (* every configuration starts with all verifiers initial (hypothesis above is met) *)
 Theorem C13_configurations_start_initial : forall k c, initialb (root k c) = true.
@@ -338,3 +358,15 @@ Example C13_example_after_join :
   /\ expected_both ex_cfg [] [a; b] <> expected_both ex_cfg [] [b; a]
   /\ c13_same_set_ok (expected_both ex_cfg [] [a; b]) (expected_both ex_cfg [] [b; a]) = true.
 Proof. cbv zeta. split; [constructor|split; [vm_compute; discriminate|vm_compute; reflexivity]]. Qed.
+
+(* a reconfiguration that narrows the scope to responses: the request side is
+   empty afterwards (no stale verifier answers), then one that widens again *)
+Example C13_example_reconfiguration :
+  spec_outputs (CFifo true true [CLeaf 1 VFailure true true; CLeaf 2 VStatus true true])
+    [Traffic Req (ex_m 3 false true); Traffic Res (ex_m 4 false true); Query;
+     Configure (CFifo false true [CLeaf 5 VHeader true true]);
+     Traffic Req (ex_m 6 false true); Traffic Res (ex_m 7 false true); Query; Reset;
+     Configure (CLeaf 8 VHeader true true);
+     Traffic Req (ex_m 9 false true); Query]
+  = [ [(1, Some 3); (2, Some 4)]; [(5, Some 7)]; [(8, Some 9)] ].
+Proof. vm_compute. reflexivity. Qed.
